@@ -134,222 +134,260 @@ func (p *parser) parse() (lookups gtab.LookupList) {
 }
 
 func (p *parser) readGsub1() *gtab.LookupTable {
-	res := make(map[glyph.ID]glyph.ID)
-
 	p.optional(itemColon)
 	p.optional(itemEOL)
 	flags := p.readLookupFlags()
-	for {
-		from := p.readGlyphList()
-		p.required(itemArrow, "\"->\"")
-		to := p.readGlyphList()
-		if len(from) != len(to) {
-			p.fatal("length mismatch: %v vs. %v", from, to)
-		}
-		for i, fromGid := range from {
-			if _, ok := res[fromGid]; ok {
-				p.fatal("duplicate mapping for GID %d", fromGid)
-			}
-			res[fromGid] = to[i]
-		}
 
-		if !p.optional(itemComma) {
-			break
-		}
-		p.optional(itemEOL)
-	}
-
-	if len(res) == 0 {
-		p.fatal("no substitutions found")
-	}
-
-	// TODO(voss): be more clever in choosing format 1/2 subtables,
-	// or change the format so that the user has to make the decision.
-	cov := makeCoverageTable(maps.Keys(res))
-
-	isConstDelta := true
-	var delta glyph.ID
-	first := true
-	for gid, idx := range res {
-		if first {
-			first = false
-			delta = idx - gid
-		} else if idx-gid != delta {
-			isConstDelta = false
-			break
-		}
-	}
-
-	var subtable gtab.Subtable
-	if isConstDelta {
-		subtable = &gtab.Gsub1_1{
-			Cov:   cov.ToSet(),
-			Delta: delta,
-		}
-	} else {
-		subst := make([]glyph.ID, len(cov))
-		for gid, i := range cov {
-			subst[i] = res[gid]
-		}
-		subtable = &gtab.Gsub1_2{
-			Cov:                cov,
-			SubstituteGlyphIDs: subst,
-		}
-	}
-	return &gtab.LookupTable{
+	lookup := &gtab.LookupTable{
 		Meta: &gtab.LookupMetaInfo{
 			LookupType:  1,
 			LookupFlags: flags,
 		},
-		Subtables: []gtab.Subtable{subtable},
 	}
-}
 
-func (p *parser) readGsub2() *gtab.LookupTable {
-	data := make(map[glyph.ID][]glyph.ID)
-
-	p.optional(itemColon)
-	p.optional(itemEOL)
-	flags := p.readLookupFlags()
 	for {
-		from := p.readGlyphList()
-		if len(from) != 1 {
-			p.fatal("expected single glyph, got %v", from)
-		}
-		p.required(itemArrow, "\"->\"")
-		to := p.readGlyphList()
-		if len(to) == 0 {
-			p.fatal("expected at least one glyph at %s", p.readItem())
+		res := make(map[glyph.ID]glyph.ID)
+		for {
+			from := p.readGlyphList()
+			p.required(itemArrow, "\"->\"")
+			to := p.readGlyphList()
+			if len(from) != len(to) {
+				p.fatal("length mismatch: %v vs. %v", from, to)
+			}
+			for i, fromGid := range from {
+				if _, ok := res[fromGid]; ok {
+					p.fatal("duplicate mapping for GID %d", fromGid)
+				}
+				res[fromGid] = to[i]
+			}
+
+			if !p.optional(itemComma) {
+				break
+			}
+			p.optional(itemEOL)
 		}
 
-		fromGid := from[0]
-		if _, ok := data[fromGid]; ok {
-			p.fatal("duplicate mapping for GID %d", fromGid)
+		if len(res) == 0 {
+			p.fatal("no substitutions found")
 		}
-		data[fromGid] = to
 
-		if !p.optional(itemComma) {
+		// TODO(voss): be more clever in choosing format 1/2 subtables,
+		// or change the format so that the user has to make the decision.
+		cov := makeCoverageTable(maps.Keys(res))
+
+		isConstDelta := true
+		var delta glyph.ID
+		first := true
+		for gid, idx := range res {
+			if first {
+				first = false
+				delta = idx - gid
+			} else if idx-gid != delta {
+				isConstDelta = false
+				break
+			}
+		}
+
+		var subtable gtab.Subtable
+		if isConstDelta {
+			subtable = &gtab.Gsub1_1{
+				Cov:   cov.ToSet(),
+				Delta: delta,
+			}
+		} else {
+			subst := make([]glyph.ID, len(cov))
+			for gid, i := range cov {
+				subst[i] = res[gid]
+			}
+			subtable = &gtab.Gsub1_2{
+				Cov:                cov,
+				SubstituteGlyphIDs: subst,
+			}
+		}
+		lookup.Subtables = append(lookup.Subtables, subtable)
+
+		if !p.optional(itemOr) {
 			break
 		}
 		p.optional(itemEOL)
 	}
 
-	if len(data) == 0 {
-		p.fatal("no substitutions found")
-	}
+	return lookup
+}
 
-	cov := makeCoverageTable(maps.Keys(data))
-	repl := make([][]glyph.ID, len(cov))
-	for gid, i := range cov {
-		repl[i] = data[gid]
-	}
-	subtable := &gtab.Gsub2_1{
-		Cov:  cov,
-		Repl: repl,
-	}
+func (p *parser) readGsub2() *gtab.LookupTable {
+	p.optional(itemColon)
+	p.optional(itemEOL)
+	flags := p.readLookupFlags()
 
-	return &gtab.LookupTable{
+	lookup := &gtab.LookupTable{
 		Meta: &gtab.LookupMetaInfo{
 			LookupType:  2,
 			LookupFlags: flags,
 		},
-		Subtables: []gtab.Subtable{subtable},
 	}
-}
 
-func (p *parser) readGsub3() *gtab.LookupTable {
-	res := make(map[glyph.ID][]glyph.ID)
-
-	p.optional(itemColon)
-	p.optional(itemEOL)
-	flags := p.readLookupFlags()
 	for {
-		from := p.readGlyphList()
-		if len(from) != 1 {
-			p.fatal("expected single glyph, got %v", from)
-		}
-		p.required(itemArrow, "\"->\"")
-		// The order of the alternates is significant, so this is a list
-		// in brackets rather than a (sorted, de-duplicated) glyph set.
-		p.required(itemSquareBracketOpen, "[")
-		to := p.readGlyphList()
-		p.required(itemSquareBracketClose, "]")
+		data := make(map[glyph.ID][]glyph.ID)
+		for {
+			from := p.readGlyphList()
+			if len(from) != 1 {
+				p.fatal("expected single glyph, got %v", from)
+			}
+			p.required(itemArrow, "\"->\"")
+			to := p.readGlyphList()
+			if len(to) == 0 {
+				p.fatal("expected at least one glyph at %s", p.readItem())
+			}
 
-		fromGid := from[0]
-		if _, ok := res[fromGid]; ok {
-			p.fatal("duplicate mapping for GID %d", fromGid)
-		}
-		res[fromGid] = to
+			fromGid := from[0]
+			if _, ok := data[fromGid]; ok {
+				p.fatal("duplicate mapping for GID %d", fromGid)
+			}
+			data[fromGid] = to
 
-		if !p.optional(itemComma) {
+			if !p.optional(itemComma) {
+				break
+			}
+			p.optional(itemEOL)
+		}
+
+		if len(data) == 0 {
+			p.fatal("no substitutions found")
+		}
+
+		cov := makeCoverageTable(maps.Keys(data))
+		repl := make([][]glyph.ID, len(cov))
+		for gid, i := range cov {
+			repl[i] = data[gid]
+		}
+		subtable := &gtab.Gsub2_1{
+			Cov:  cov,
+			Repl: repl,
+		}
+		lookup.Subtables = append(lookup.Subtables, subtable)
+
+		if !p.optional(itemOr) {
 			break
 		}
 		p.optional(itemEOL)
 	}
 
-	if len(res) == 0 {
-		p.fatal("no substitutions found")
-	}
+	return lookup
+}
 
-	cov := makeCoverageTable(maps.Keys(res))
-	repl := make([][]glyph.ID, len(cov))
-	for gid, i := range cov {
-		repl[i] = res[gid]
-	}
-	subtable := &gtab.Gsub3_1{
-		Cov:        cov,
-		Alternates: repl,
-	}
+func (p *parser) readGsub3() *gtab.LookupTable {
+	p.optional(itemColon)
+	p.optional(itemEOL)
+	flags := p.readLookupFlags()
 
-	return &gtab.LookupTable{
+	lookup := &gtab.LookupTable{
 		Meta: &gtab.LookupMetaInfo{
 			LookupType:  3,
 			LookupFlags: flags,
 		},
-		Subtables: []gtab.Subtable{subtable},
 	}
-}
 
-func (p *parser) readGsub4() *gtab.LookupTable {
-	data := make(map[glyph.ID][]gtab.Ligature)
-
-	p.optional(itemColon)
-	p.optional(itemEOL)
-	flags := p.readLookupFlags()
 	for {
-		from := p.readGlyphList()
-		if len(from) == 0 {
-			p.fatal("expected at least one glyph at %s", p.readItem())
-		}
-		p.required(itemArrow, "\"->\"")
-		to := p.readGlyphList()
-		if len(to) != 1 {
-			p.fatal("expected single glyph, got %v", to)
+		res := make(map[glyph.ID][]glyph.ID)
+		for {
+			from := p.readGlyphList()
+			if len(from) != 1 {
+				p.fatal("expected single glyph, got %v", from)
+			}
+			p.required(itemArrow, "\"->\"")
+			// The order of the alternates is significant, so this is a list
+			// in brackets rather than a (sorted, de-duplicated) glyph set.
+			p.required(itemSquareBracketOpen, "[")
+			to := p.readGlyphList()
+			p.required(itemSquareBracketClose, "]")
+
+			fromGid := from[0]
+			if _, ok := res[fromGid]; ok {
+				p.fatal("duplicate mapping for GID %d", fromGid)
+			}
+			res[fromGid] = to
+
+			if !p.optional(itemComma) {
+				break
+			}
+			p.optional(itemEOL)
 		}
 
-		key := from[0]
-		data[key] = append(data[key], gtab.Ligature{In: from[1:], Out: to[0]})
+		if len(res) == 0 {
+			p.fatal("no substitutions found")
+		}
 
-		if !p.optional(itemComma) {
+		cov := makeCoverageTable(maps.Keys(res))
+		repl := make([][]glyph.ID, len(cov))
+		for gid, i := range cov {
+			repl[i] = res[gid]
+		}
+		subtable := &gtab.Gsub3_1{
+			Cov:        cov,
+			Alternates: repl,
+		}
+		lookup.Subtables = append(lookup.Subtables, subtable)
+
+		if !p.optional(itemOr) {
 			break
 		}
 		p.optional(itemEOL)
 	}
 
-	cov := makeCoverageTable(maps.Keys(data))
-	repl := make([][]gtab.Ligature, len(cov))
-	for gid, i := range cov {
-		repl[i] = data[gid]
+	return lookup
+}
+
+func (p *parser) readGsub4() *gtab.LookupTable {
+	p.optional(itemColon)
+	p.optional(itemEOL)
+	flags := p.readLookupFlags()
+
+	lookup := &gtab.LookupTable{
+		Meta: &gtab.LookupMetaInfo{LookupType: 4, LookupFlags: flags},
 	}
 
-	subtable := &gtab.Gsub4_1{
-		Cov:  cov,
-		Repl: repl,
+	for {
+		data := make(map[glyph.ID][]gtab.Ligature)
+		for {
+			from := p.readGlyphList()
+			if len(from) == 0 {
+				p.fatal("expected at least one glyph at %s", p.readItem())
+			}
+			p.required(itemArrow, "\"->\"")
+			to := p.readGlyphList()
+			if len(to) != 1 {
+				p.fatal("expected single glyph, got %v", to)
+			}
+
+			key := from[0]
+			data[key] = append(data[key], gtab.Ligature{In: from[1:], Out: to[0]})
+
+			if !p.optional(itemComma) {
+				break
+			}
+			p.optional(itemEOL)
+		}
+
+		cov := makeCoverageTable(maps.Keys(data))
+		repl := make([][]gtab.Ligature, len(cov))
+		for gid, i := range cov {
+			repl[i] = data[gid]
+		}
+
+		subtable := &gtab.Gsub4_1{
+			Cov:  cov,
+			Repl: repl,
+		}
+		lookup.Subtables = append(lookup.Subtables, subtable)
+
+		if !p.optional(itemOr) {
+			break
+		}
+		p.optional(itemEOL)
 	}
-	return &gtab.LookupTable{
-		Meta:      &gtab.LookupMetaInfo{LookupType: 4, LookupFlags: flags},
-		Subtables: []gtab.Subtable{subtable},
-	}
+
+	return lookup
 }
 
 func (p *parser) readGpos1() *gtab.LookupTable {
